@@ -236,7 +236,7 @@ func staticID(ci ssa.CallInstruction) string {
 	if ci == nil {
 		return ""
 	}
-	if sc := ci.Common().StaticCallee(); sc != nil {
+	if sc := ir.Callee(ci.Common()); sc != nil {
 		return sc.String()
 	}
 	return ""
@@ -248,7 +248,7 @@ func callName(ci ssa.CallInstruction) string {
 	if com.IsInvoke() {
 		return com.Method.Name()
 	}
-	if sc := com.StaticCallee(); sc != nil {
+	if sc := ir.Callee(com); sc != nil {
 		s := sc.String()
 		// shorten long import paths: keep the last path element
 		if i := strings.LastIndex(s, "/"); i >= 0 {
@@ -679,6 +679,7 @@ func (w *pwalker) visit(b *ssa.BasicBlock, pred *ssa.BasicBlock, st *pstate) {
 		type upd struct {
 			phi *ssa.Phi
 			t   tri
+			src ssa.Value // the value the φ takes on this edge (cells/φs resolved); nil for constants
 		}
 		var ups []upd
 		for _, ins := range b.Instrs {
@@ -687,6 +688,7 @@ func (w *pwalker) visit(b *ssa.BasicBlock, pred *ssa.BasicBlock, st *pstate) {
 				break
 			}
 			t := triUnknown
+			var src ssa.Value
 			if pi >= 0 && pi < len(phi.Edges) {
 				e := phi.Edges[pi]
 				if isBoolType(phi.Type()) {
@@ -694,14 +696,27 @@ func (w *pwalker) visit(b *ssa.BasicBlock, pred *ssa.BasicBlock, st *pstate) {
 				} else {
 					t = nilness(st, e)
 				}
+				if _, isC := e.(*ssa.Const); !isC {
+					src = st.deref(e)
+				}
 			}
-			ups = append(ups, upd{phi, t})
+			ups = append(ups, upd{phi, t, src})
 		}
 		for _, u := range ups {
 			if u.t == triUnknown {
 				delete(st.facts, u.phi)
 			} else {
 				st.facts[u.phi] = u.t
+			}
+			// on this path the φ *is* its incoming value: facts learnt later about
+			// the φ (if err == nil …) are facts about that value
+			if u.src != nil && u.src != ssa.Value(u.phi) {
+				if st.alias == nil {
+					st.alias = map[ssa.Value]ssa.Value{}
+				}
+				st.alias[u.phi] = u.src
+			} else {
+				delete(st.alias, u.phi)
 			}
 		}
 	}
@@ -760,6 +775,11 @@ func (w *pwalker) exec(b *ssa.BasicBlock, from int, st *pstate) {
 		if v, ok := ins.(ssa.Value); ok {
 			delete(st.facts, v)
 			delete(st.alias, v)
+			for k, t := range st.alias {
+				if t == v {
+					delete(st.alias, k) // alias of a previous execution (loops)
+				}
+			}
 		}
 		switch x := ins.(type) {
 		case *ssa.Extract:
@@ -948,6 +968,16 @@ func descValue(v ssa.Value) string {
 		}
 		return callName(call) + "(" + strings.Join(as, ", ") + ")"
 	}
+	if phi, ok := v.(*ssa.Phi); ok {
+		var es []string
+		for _, e := range phi.Edges {
+			if e == ssa.Value(phi) {
+				continue
+			}
+			es = append(es, ir.Sym(ir.Strip(ir.ResolveCell(e))))
+		}
+		return "φ(" + strings.Join(es, " | ") + ")"
+	}
 	return ir.Sym(v)
 }
 
@@ -991,7 +1021,7 @@ func (f *frame) child(ci ssa.CallInstruction) *frame {
 		return k
 	}
 	var k *frame
-	h := ci.Common().StaticCallee()
+	h := ir.Callee(ci.Common())
 	if h != nil && h.Blocks != nil && isOwn(f.P, h) && f.depth < maxHelperDepth && len(ci.Common().Args) == len(h.Params) {
 		rec := false
 		for a := f; a != nil; a = a.up {
@@ -1094,7 +1124,7 @@ func unfollowedHelper(x fval) bool {
 	if call == nil {
 		return false
 	}
-	h := call.Call.StaticCallee()
+	h := ir.Callee(call.Call)
 	return h != nil && h.Blocks != nil && isOwn(x.fr.P, h)
 }
 
